@@ -9,7 +9,6 @@ import (
 	"runtime"
 	"strconv"
 	"strings"
-	"time"
 
 	"github.com/sdcio/yang-parser/parse"
 )
@@ -57,7 +56,13 @@ func Main() {
 		out := fs.String("out", "", "result file (ndjson)")
 		trace := fs.String("trace", "", "trace file (ndjson; run7 with hooks)")
 		workers := fs.Int("workers", 12, "worker processes")
+		solo := fs.Bool("solo", false, "confirmation run: one case at a time, a fresh worker process for each, limits ten times larger")
 		fs.Parse(os.Args[2:])
+		if *solo {
+			*workers = 1
+			os.Setenv("YP_SOLO", "1")
+			limits = SoloLimits
+		}
 		if *out == "" || fs.NArg() == 0 {
 			usage()
 		}
@@ -82,7 +87,7 @@ func Main() {
 	}
 }
 
-const watchdog = 2 * time.Second
+var limits = CurrentLimits()
 
 var leakedSoFar int
 
@@ -91,8 +96,8 @@ func stopFor(o *Outcome) string {
 		return "hang"
 	}
 	leakedSoFar += o.Leak
-	if leakedSoFar > 64 {
-		return "restart" // keep goroutine dumps small on a leaking parser
+	if leakedSoFar > 64 || limits.Solo {
+		return "restart" // keep goroutine dumps small on a leaking parser; solo: a fresh process for every case
 	}
 	return ""
 }
@@ -124,7 +129,7 @@ func handle7(id int, raw json.RawMessage) result {
 	}
 	text := FromCPs(v.Text)
 	want := os.Getenv("YP_TRACE") != ""
-	o := Guarded(text, watchdog, want)
+	o := Guarded(text, limits, want)
 	var bad []string
 	switch o.Ret {
 	case "hang":
@@ -150,7 +155,7 @@ func handle7(id int, raw json.RawMessage) result {
 		verdict = strings.Join(bad, "+")
 	}
 	r := map[string]interface{}{"ret": o.Ret, "err": clip(o.Err + o.PanicVal), "root": o.Root, "leak": o.Leak, "exited": o.Exited,
-		"hasLoc": o.HasLoc, "line": o.Line, "col": o.Col, "verdict": verdict, "events": len(o.Events)}
+		"hasLoc": o.HasLoc, "line": o.Line, "col": o.Col, "verdict": verdict, "events": len(o.Events), "why": o.Why, "solo": limits.Solo}
 	b, _ := json.Marshal(r)
 	res := result{R: b, Stop: stopFor(&o)}
 	if want {
@@ -239,7 +244,7 @@ func handle8(id int, raw json.RawMessage) result {
 	if err := json.Unmarshal(raw, &v); err != nil {
 		return result{R: json.RawMessage(`{"ret":"bad-vector"}`)}
 	}
-	o := Guarded(FromCPs(v.Text), watchdog, false)
+	o := Guarded(FromCPs(v.Text), limits, false)
 	r := map[string]interface{}{"ret": o.Ret, "err": clip(o.Err + o.PanicVal), "leak": o.Leak}
 	if o.Ret == "ok" && o.Root {
 		n := o.Tree.Root
@@ -365,7 +370,7 @@ func handle10(id int, raw json.RawMessage) result {
 	if err := json.Unmarshal(raw, &v); err != nil {
 		return result{R: json.RawMessage(`{"ret":"bad-vector"}`)}
 	}
-	o := Guarded(FromCPs(v.Text), watchdog, false)
+	o := Guarded(FromCPs(v.Text), limits, false)
 	r := map[string]interface{}{"ret": o.Ret, "err": clip(o.Err + o.PanicVal), "leak": o.Leak}
 	if o.Ret == "ok" && o.Root {
 		w := walk(o.Tree.Root)
